@@ -346,6 +346,21 @@ func (e *EvalEnv) ident(name string) (Val, error) {
 			}
 		}
 	}
+	// a variable carried by exactly one already-executed phi (e.g. a named result updated only in an
+	// enclosing loop, referred to from an inner loop's invariant)
+	if e.Fr != nil {
+		var found ssa.Value
+		n := 0
+		for v := range e.Fr.Env {
+			if ph, ok := v.(*ssa.Phi); ok && ph.Comment == name && ph.Parent() == e.Fr.Fn {
+				found = v
+				n++
+			}
+		}
+		if n == 1 {
+			return e.Fr.Env[found], nil
+		}
+	}
 	// package-level constant / variable
 	if e.Fn != nil && e.Fn.Pkg != nil {
 		if v, ok, err := e.pkgMember(e.Fn.Pkg, name); ok || err != nil {
@@ -1209,6 +1224,25 @@ func (e *EvalEnv) call(x *ast.CallExpr) (Val, error) {
 		}
 		e.LastFrame, e.LastFrameRegions = conj, conjRegions
 		return TV{T: And(conj...), Typ: types.Typ[types.Bool]}, nil
+	case "allocated":
+		// allocated(s): the slice/pointer/map refers to an object that already exists in the current state
+		// (so a later allocation cannot alias it)
+		v, err := e.Eval(x.Args[0])
+		if err != nil {
+			return nil, err
+		}
+		var base Term
+		switch b := v.(type) {
+		case PtrV:
+			base = b.Base
+		case TV:
+			if b.T.Sort == SSlice {
+				base = SlBase(b.T)
+			} else {
+				base = b.T
+			}
+		}
+		return TV{T: bvCmp("bvult", base, e.state().Brk), Typ: types.Typ[types.Bool]}, nil
 	case "fresh":
 		// fresh(s): slice/pointer/map allocated during the call
 		v, err := e.Eval(x.Args[0])
